@@ -775,6 +775,23 @@ fn decoded_of(tx: &conway::Tx) -> Result<Decoded, String> {
     })
 }
 
+/// Scripts of the built witness set read with refcbor, by language key
+/// (1 native, 3 PlutusV1, 6 PlutusV2, 7 PlutusV3), as a sorted list (duplicates visible).
+fn witness_scripts(bytes: &[u8]) -> Result<Vec<(u8, Vec<u8>)>, String> {
+    let top = refcbor::parse_one(bytes).map_err(|e| format!("{e:?}"))?;
+    let ws = top.as_array().and_then(|a| a.get(1)).ok_or("no witness set")?;
+    let mut out = vec![];
+    for (key, kind) in [(1u64, 0u8), (3, 1), (6, 2), (7, 3)] {
+        if let Some(v) = ws.map_get(key) {
+            for item in v.untagged().as_array().ok_or("script section is not an array")? {
+                out.push((kind, if kind == 0 { item.canonical().to_vec() } else { item.as_bytes().ok_or("plutus script is not a byte string")? }));
+            }
+        }
+    }
+    out.sort();
+    Ok(out)
+}
+
 // ------------------------------------------------------------------ accumulators
 
 #[derive(Default)]
@@ -803,6 +820,8 @@ struct Acc {
     reordered_pointer_checks: AtomicU64,
     hash_checks: AtomicU64,
     cancelled_mint_builds_ok: AtomicU64,
+    same_bytes_multi_language_builds_ok: AtomicU64,
+    script_removals_by_reference_hash_builds_ok: AtomicU64,
     diag_redeemer_payload_differs: AtomicU64,
     diag_fee_differs: AtomicU64,
     violations: Mutex<BTreeMap<String, Best>>,
@@ -859,7 +878,9 @@ pub fn state_key(v: &Value) -> String {
 fn run_history(acc: &Acc, hist: &[Ev]) -> Outcome {
     let mut st = StagingTransaction::new();
     let mut model = Model::default();
+    let mut last_removed_a_script = false;
     for (n, ev) in hist.iter().enumerate() {
+        last_removed_a_script = matches!(ev, Ev::RemoveScript(i) if model.scripts.contains_key(&script_hash(&script_dom(*i))));
         let enabled = model.apply(ev);
         let s = st;
         match catch(move || apply_real(s, ev)) {
@@ -980,9 +1001,28 @@ fn run_history(acc: &Acc, hist: &[Ev]) -> Outcome {
         Ok(Ok(Ok(dec))) => {
             // A Conway mint cannot carry a zero quantity: a staged amount that cancelled out
             // to 0 mints nothing, so the staged side drops zero amounts, then empty policies.
-            let staged_cmp = Content { mint: effective_mint(&staged.content.mint), ..staged.content.clone() };
-            if let Some((field, detail)) = staged_cmp.first_difference(&dec.content) {
+            // Scripts: the reference is the bookkeeping of the calls (every (language, bytes)
+            // staged and not removed by its reference hash), not the keys of the staged map.
+            let staged_cmp = Content { mint: effective_mint(&staged.content.mint), scripts: m.content.scripts.clone(), ..staged.content.clone() };
+            let diff = staged_cmp.first_difference(&dec.content);
+            if let Some((field, detail)) = &diff {
                 fail(format!("built-content:{field}"), format!("built {field} are not the staged ones: {detail}"), json!({}));
+            }
+            if diff.as_ref().map(|d| d.0) != Some("scripts") {
+                // the same, read from the bytes by witness-set key, each script exactly once
+                let want: Vec<(u8, Vec<u8>)> = m.content.scripts.iter().cloned().collect();
+                match witness_scripts(&bytes) {
+                    Ok(got) if got == want => {}
+                    Ok(got) => fail("built-content:scripts".into(), format!("witness-set script sections (1 native, 3 V1, 6 V2, 7 V3) hold {got:?}, staged {want:?}"), json!({})),
+                    Err(e) => fail("built-bytes:unexpected-shape".into(), format!("cannot read the script sections of the witness set: {e}"), json!({})),
+                }
+            }
+            let sc: Vec<&(u8, Vec<u8>)> = m.content.scripts.iter().collect();
+            if sc.iter().any(|a| sc.iter().any(|b| a.0 != b.0 && a.1 == b.1)) {
+                acc.same_bytes_multi_language_builds_ok.fetch_add(1, Ordering::Relaxed);
+            }
+            if last_removed_a_script {
+                acc.script_removals_by_reference_hash_builds_ok.fetch_add(1, Ordering::Relaxed);
             }
             if staged_cmp.mint != staged.content.mint {
                 acc.cancelled_mint_builds_ok.fetch_add(1, Ordering::Relaxed);
@@ -1104,7 +1144,7 @@ pub fn wide_alphabet() -> Vec<Ev> {
         ValidFrom(10), ClearValidFrom, InvalidFrom(20), ClearInvalidFrom,
         NetworkId(0), NetworkId(1), NetworkId(2), ClearNetworkId,
         Signer(0), Signer(1), RemoveSigner(0),
-        Script(0), Script(1), Script(2), Script(3), Script(4), RemoveScript(0), RemoveScript(2),
+        Script(0), Script(1), Script(2), Script(3), Script(4), RemoveScript(0), RemoveScript(1), RemoveScript(2), RemoveScript(3), RemoveScript(4),
         Datum(0), Datum(1), Datum(2), RemoveDatum(0), RemoveDatumByHash(1),
         LanguageViews, AddLanguage(1), AddLanguage(2), AddLanguage(0),
         SpendRdmr(0, 0, true), SpendRdmr(1, 0, true), SpendRdmr(0, 0, false), SpendRdmr(0, 1, true), RemoveSpendRdmr(0),
@@ -1189,6 +1229,11 @@ pub fn run(ctx: Ctx) -> ! {
     let errs = acc.build_err.lock().unwrap().clone();
     let ptr = acc.redeemer_pointer_checks.load(Ordering::Relaxed);
     let reordered = acc.reordered_pointer_checks.load(Ordering::Relaxed);
+    let same_bytes = acc.same_bytes_multi_language_builds_ok.load(Ordering::Relaxed);
+    let removals = acc.script_removals_by_reference_hash_builds_ok.load(Ordering::Relaxed);
+    if same_bytes == 0 || removals == 0 {
+        mc_core::report::machinery_failure(&format!("vacuous exploration: builds with one byte string staged under two languages={same_bytes}, builds after an effective remove_script_by_hash={removals}"));
+    }
     if build_ok == 0 || errs.len() < 3 || ptr == 0 || reordered == 0 {
         mc_core::report::machinery_failure(&format!(
             "vacuous exploration: builds ok={build_ok}, distinct build errors={}, redeemer pointer checks={ptr}, of which on reordered targets={reordered}",
@@ -1216,6 +1261,8 @@ pub fn run(ctx: Ctx) -> ! {
         "builds_panicked" => acc.build_panic.load(Ordering::Relaxed),
         "states_with_iteration_order_dependent_build_outcome" => acc.order_dependent_states.load(Ordering::Relaxed),
         "builds_ok_with_a_mint_amount_cancelled_to_zero" => acc.cancelled_mint_builds_ok.load(Ordering::Relaxed),
+        "builds_ok_with_one_byte_string_staged_under_two_languages" => same_bytes,
+        "builds_ok_right_after_remove_script_by_hash_that_removed" => removals,
         "tx_hash_checks" => acc.hash_checks.load(Ordering::Relaxed),
         "redeemer_pointer_checks" => ptr,
         "redeemer_pointer_checks_with_reordered_targets" => reordered,
@@ -1231,7 +1278,7 @@ pub fn run(ctx: Ctx) -> ! {
         Level::ModelChecking,
         cov,
         &[
-            "staged content = the public fields of the StagingTransaction (cross-checked against a bookkeeping model of the calls; divergences are diagnostics)",
+            "staged content = the public fields of the StagingTransaction (cross-checked against a bookkeeping model of the calls; divergences are diagnostics), except scripts: there the bookkeeping model is the reference (every (language, bytes) staged and not removed through its reference hash Blake2b-224(tag || bytes) must sit under its own witness-set key, each once, nothing else)",
             "a staged mint amount that accumulated to 0 stands for 'nothing minted': zero amounts, then empty policies, are dropped from the staged side of the mint comparison; redeemer positions are taken in the sorted set of inputs / sorted policy ids of the built transaction",
             "sets (inputs, collateral, reference inputs, signers, datums, scripts) are compared as sets; datums, native scripts and auxiliary data up to CBOR spelling (definite/indefinite, head width)",
             "fee, script_data_hash, redeemer data and ex-units are not in the property's list and are diagnostics only",
